@@ -6,6 +6,7 @@ import PowHsm.Proofs.Chunks
 import PowHsm.Proofs.Monad
 import PowHsm.Proofs.Sign
 import PowHsm.Proofs.SignLast
+import PowHsm.Proofs.SignConverse
 namespace PowHsm
 namespace Props.C01
 open Dongle M
@@ -100,6 +101,29 @@ theorem sign_returns_device_signature (a : SignAuthArgs) (w : World) (r s : Byte
     ∃ resp, lastAnswer w.script (signAuthorized a w).evs = some (.data resp) ∧
       resp[2]? = some OP_SUCCESS ∧ Der.parse (resp.drop 3) = some (r, s) :=
   signAuthorized_sigFromLast a w r s h
+
+/-- **the reply is successful exactly when the device consumed every byte of every part and reported
+    success**: for every request and every device behaviour, `sign_authorized` returns the signature
+    `(r, s)` if and only if the transaction part, the receipt and the framed proof all went out in full
+    and the device's answer to the last message names SUCCESS and carries the DER signature `(r, s)` -/
+theorem sign_succeeds_exactly_when (a : SignAuthArgs) (w : World) :
+    ∃ as1 as2 as3 as4 : List Bytes,
+      (signAuthorized a w).evs = (as1 ++ as2 ++ as3 ++ as4).map Ev.apdu ∧
+      (as1 = [] ∨ as1 = [pathMsg a]) ∧
+      PartOf OP_BTC_TX ((btcPayload a).getD []) as2 ∧ PartOf OP_TX_RECEIPT a.receipt as3 ∧
+      PartOf OP_MERKLE_PROOF ((proofPayload a.proof).getD []) as4 ∧
+      ∀ r s, (signAuthorized a w).val = .ok (.sig r s) ↔
+        (btcPayload a = some (payloads as2) ∧ payloads as3 = a.receipt ∧
+         proofPayload a.proof = some (payloads as4) ∧
+         ∃ resp, lastAnswer w.script (signAuthorized a w).evs = some (.data resp) ∧
+           resp[2]? = some OP_SUCCESS ∧ Der.parse (resp.drop 3) = some (r, s)) := by
+  obtain ⟨as1, as2, as3, as4, he, h1, h2, h3, h4, hs, hc⟩ := signAuthorized_full a w
+  refine ⟨as1, as2, as3, as4, he, h1, h2, h3, h4, fun r s => ⟨fun hv => ?_, fun hx => ?_⟩⟩
+  · obtain ⟨_, hb, hr, hp⟩ := hs r s hv
+    exact ⟨hb, hr, hp, signAuthorized_sigFromLast a w r s hv⟩
+  · obtain ⟨hb, hr, hp, resp, hl, hrop, hder⟩ := hx
+    rw [he] at hl
+    exact hc resp r s hl hrop hder hb hr hp
 
 /-- the same for an unauthorized signature: `r`, `s` come out of the answer to the one message sent -/
 theorem sign_hash_returns_device_signature (path : List Nat) (hash : Bytes) (w : World) (r s : Bytes)
